@@ -1,7 +1,7 @@
 """C16 — Edits racing with requests never deadlock and the server converges (lock discipline, ordering)."""
 from lib import flow as FL
 from lib import locks as LK
-from lib.facts import callee, callee_def, op_place
+from lib.facts import op_local, callee, callee_def, op_place
 from rules import parser_model as PM
 
 META = {
@@ -509,8 +509,18 @@ def stale_diagnostics_are_dropped(F, res, rule="W15"):
     du = FL.Defs(up)
     recs = []
     for b, t in up.calls():
-        c = FL.short(callee(t) or callee_def(t) or "")
-        if c.rsplit("::", 1)[-1] == "insert" and "internal" in {str(x) for x in FL.fields_feeding(F, up, du, t["args"][0], "DiagnosticCollector")}:
+        c = callee(t) or callee_def(t) or ""
+        # the list is recorded by an insert into DiagnosticCollector.internal - here, or in a helper of the server that is handed
+        # the map (`Self::record_diagnostics(&mut self.diagnostics.internal, &self.diagnostics.external, list)`)
+        if not (FL.short(c).rsplit("::", 1)[-1] == "insert" or (c.startswith("glas::server::") and c in F.fns and F.fns[c].blocks)):
+            continue
+        first_mut = None
+        for a in t["args"]:
+            if "internal" in {str(x) for x in FL.fields_feeding(F, up, du, a, "DiagnosticCollector")}:
+                l = op_local(a)
+                if l is not None and str(up.local_ty(l) or "").startswith("&mut"):
+                    first_mut = a
+        if first_mut is not None:
             recs.append((b, t))
     ok, how = bool(recs), []
     for b, t in recs:
